@@ -333,13 +333,28 @@ func genDecCases(r *Rng, n int, w *bufio.Writer) {
 		var payload []byte
 		switch kind {
 		case "tx", "txhex":
-			ser, _ := genTx(r, true).Serialize()
+			tx := genTx(r, true)
+			var ser []byte
+			if guarded(func() { ser, _ = tx.Serialize() }) != nil {
+				fmt.Fprintln(w, blkLine(&block.Block{Header: genHeader(NewRng(1)), TransactionsData: &block.Transactions{Transactions: []*transaction.Transaction{tx}}}))
+				continue
+			}
 			mk, payload = mutateBytes(r, ser)
 		case "block":
-			ser, _ := genBlock(r).SerializeBlock()
+			bl := genBlock(r)
+			var ser []byte
+			if guarded(func() { ser, _ = bl.SerializeBlock() }) != nil {
+				fmt.Fprintln(w, blkLine(bl))
+				continue
+			}
 			mk, payload = mutateBytes(r, ser)
 		case "header":
-			ser, _ := genHeader(r).Serialize()
+			h := genHeader(r)
+			var ser []byte
+			if guarded(func() { ser, _ = h.Serialize() }) != nil {
+				fmt.Fprintln(w, blkLine(&block.Block{Header: h, TransactionsData: &block.Transactions{}}))
+				continue
+			}
 			mk, payload = mutateBytes(r, ser)
 		case "merkle":
 			if len(sd.merkleHex) == 0 {
